@@ -12,6 +12,7 @@ var advStrings = []string{
 	"", "a", "method", "org.varlink.service", "é", "世界", "\U0001F600", " ", " ",
 	"<>&", "a\"b", "a\\b", "/", "\x7f", "ſ", "K", "tab\there", "nl\nx", "cr\rx", "nul\x00x", "\x01\x1f",
 	"0", "-1", "true", "null", "{}", "[", "]", ",", ":", " ", "#", "'", "�", "￿", " ",
+	`C:\users\u003cname\u003e`, `\u0026`, `a\u003cb`, `\\u003e`, `\n`, `\"`, `\u0000`, `<\u003c>`, "\\", `\ud800`,
 }
 
 // jsonString renders s as a JSON string literal choosing among equivalent escape forms.
